@@ -802,6 +802,8 @@ def search(hints, tier, rng):
     per_kind = 2 if quick else 14
     base = rng.randrange(1, 10 ** 6)
     wit, stats = [], {}
+    from props import oracles
+    wit += [w for w in oracles.net_violations(rng, tier) if "log-det" in w["law"]]
     kinds = list(dict.fromkeys(KINDS))
     for rep in range(per_kind):
         for ki, kind in enumerate(kinds):
@@ -829,6 +831,9 @@ def search(hints, tier, rng):
 
 
 def replay(w):
+    if w.get("kind") in ("net", "planar", "nested_invert"):
+        from props import oracles
+        return bool(oracles.replay_witness(w))
     if w.get("kind") == "bnafld":
         from props import bnafld
         return bnafld.replay_bnafld(w)
